@@ -79,7 +79,8 @@ class C16Machine(Machine):
         if rng.random() < (0.03 if tier == "quick" else 0.06):
             # rare large table: crosses the 8 KiB text-buffer size and any plausible chunk size
             cfg["large"] = True
-            cfg["n_rows"] = rng.choice([40, 70, 150])
+            # sizes sit on and next to the usual batch / buffer boundaries
+            cfg["n_rows"] = rng.choice([31, 32, 33, 40, 50, 63, 64, 65, 99, 100, 101, 127, 128, 129, 150, 192, 256, 257])
             cfg["max_ops"] = cfg["n_rows"] + 8
             cfg["width"] = max(cfg["width"], 2)
         cfg["column"] = rng.randrange(cfg["width"])
